@@ -310,6 +310,9 @@ func (e *Engine) scanner(id int) {
 			shards, conc := pick(r, 1, 2, 4, 16, len(hs.Want)+3), pick(r, 1, 2, 4)
 			kind, detail, _ := visitAndCheck(e.db, hs, shards, conc, nil)
 			atomic.AddInt64(&e.visits, 1)
+			if kind == "inconclusive" {
+				kind = ""
+			}
 			if kind != "" {
 				e.problem("C01", "visitor-"+kind, "concurrent Visitor on snapshot sn=%d (age %d): %s", hs.Sn, age, detail)
 			}
